@@ -187,6 +187,33 @@ def check_invalid_schema(d, S):
     return None
 
 
+def invalid_prehistories(d, S):
+    out = []
+    for d2 in _e1.DRAFTS:
+        if d2 != d and _e1.accepted(d2, S):
+            out.append(("accepted-by-draft", d2))
+    if isinstance(S, dict):
+        out.append(("edited-in-place", 0))
+    return out
+
+
+def run_prehistory(d, S, pre):
+    """Build the schema object, let the earlier operations see it, then demand what check_invalid_schema demands."""
+    S2 = json.loads(json.dumps(S))
+    if pre[0] == "accepted-by-draft":
+        cls2 = _e1.CLS[pre[1]]
+        call(lambda: cls2.check_schema(S2))
+        call(lambda: jsonschema.validate(None, S2, cls=cls2))
+    else:
+        keep = dict(S2)
+        S2.clear()
+        cls = _e1.CLS[d]
+        call(lambda: cls.check_schema(S2))                  # {} is accepted by every draft
+        call(lambda: jsonschema.validate(None, S2, cls=cls))
+        S2.update(keep)                                     # the caller edits the object it owns
+    return S2, check_invalid_schema(d, S2)
+
+
 _invalid = {}
 
 
@@ -416,7 +443,9 @@ def plan(ctx):
                  "groups and nested applicators x U_small, ordered pairs (quick: all ordered pairs over two values "
                  "per keyword; thorough: all ordered pairs of the full single alphabet) x a 10-instance universe, "
                  "each with FormatChecker() too when the schema uses `format`; invalid schemas: every candidate of "
-                 "C11's table (4-12 positions) that the draft's check_schema rejects, with a trip-wire instance; "
+                 "C11's table (4-12 positions) that the draft's check_schema rejects, with a trip-wire instance, "
+                 "also after the same schema object was accepted by another draft's class or was accepted by this "
+                 "class and then edited in place; "
                  "all relations of the property are evaluated on each; SESSIONS: on ONE validator object every sequence "
                  "of 2 (thorough: 3) calls (is_valid / first error then drop / validate / complete iteration) x "
                  "instance, for schemas with base-changing ids, relative and cross-document references (documents in "
@@ -456,6 +485,15 @@ def run_unit(unit, ctx):
             outcomes["invalid-schema"] = outcomes.get("invalid-schema", 0) + 1
             if p:
                 report("invalid-schema", S, None, p, {"kind": "invalid"})
+            # the same schema OBJECT was seen before: accepted by another draft's class, or accepted by this
+            # class before the caller edited it in place
+            for pre in invalid_prehistories(d, S):
+                ev += 1
+                nt += 1
+                S2, p = run_prehistory(d, S, pre)
+                outcomes["invalid-schema-after-" + pre[0]] = outcomes.get("invalid-schema-after-" + pre[0], 0) + 1
+                if p:
+                    report("invalid-schema-after-" + pre[0], S, None, p, {"kind": "invalid", "prehistory": list(pre)})
             if len(samples) < 1 and i % 499 == 3:
                 samples.append({"draft": d, "invalid_schema": S})
         return {"evaluations": ev, "nontrivial": nt, "violations": viol, "samples": samples,
@@ -505,7 +543,9 @@ def replay(case, ctx):
     if cfg.get("kind") == "session":
         r = run_session(d, S, [tuple(h) for h in case["history"]], cfg["with_store"], {})
         return {"reproduced": r is not None, "problem": r}
-    if cfg.get("kind") == "invalid":
+    if cfg.get("kind") == "invalid" and cfg.get("prehistory"):
+        S2, p = run_prehistory(d, S, tuple(cfg["prehistory"]))
+    elif cfg.get("kind") == "invalid":
         p = check_invalid_schema(d, S)
     else:
         p, n = check_valid_schema(d, S, case["instance"], FormatChecker() if cfg["format_checker"] else None,
